@@ -1711,6 +1711,8 @@ def gen_doc(rng) -> Dict[str, Any]:
                 items.append(rng.choice([-120, 250, 1000, -33.5]))
         shows.append(items)
     cfg["shows"] = shows
+    # every value the property names may be written directly or as an indirect object (`/Encoding 8 0 R`)
+    cfg["indirect"] = sorted(k for k in INDIRECTABLE if rng.random() < 0.25)
     # a second Type0 font over the SAME descendant CIDFont object, with another Encoding / ToUnicode
     # (subset re-encodings, -H / -V variants of one CIDFont)
     cfg["second"] = None
@@ -1753,6 +1755,10 @@ def second_cfg(cfg):
     return out
 
 
+INDIRECTABLE = ["Encoding", "ToUnicode", "DescendantFonts", "W", "DW", "W2", "DW2", "CIDSystemInfo", "Registry",
+                "Ordering", "Supplement", "Encoding2", "ToUnicode2", "CMapName"]
+
+
 def norm_went(e):
     return ("L", e[1], list(e[2])) if e[0] == "L" else ("R", e[1], e[2], e[3])
 
@@ -1793,6 +1799,25 @@ def doc_pdf(cfg) -> bytes:
         desc["FontFile2"] = Ref(9)
         extra[9] = Stream({}, ttf_bytes(cfg["ttf"]))
         cid["CIDToGIDMap"] = "Identity"
+    # optional indirection of the values the property names
+    ind = set(cfg.get("indirect") or [])
+    nxt = [30]
+
+    def maybe(key: str, holder: Dict[str, Any], field: Optional[str] = None) -> None:
+        field = field or key
+        if key in ind and field in holder and not isinstance(holder[field], Ref):
+            extra[nxt[0]] = holder[field]
+            holder[field] = Ref(nxt[0])
+            nxt[0] += 1
+
+    for k in ("Registry", "Ordering", "Supplement"):
+        maybe(k, csi)
+    for k in ("CIDSystemInfo", "W", "DW", "W2", "DW2"):
+        maybe(k, cid)
+    for k in ("Encoding", "ToUnicode", "DescendantFonts"):
+        maybe(k, t0)
+    if 7 in extra:
+        maybe("CMapName", extra[7].d)
     extra[4] = t0
     fonts = {"F1": Ref(4)}
     from harness.pdfwriter import ser
@@ -1831,6 +1856,8 @@ def doc_pdf(cfg) -> bytes:
             else:
                 t2["ToUnicode"] = Ref(16)
                 extra[16] = Stream({}, toks_stream(render_sections([parse_sec_word(w) for w in sec["tu"]["sections"]])))
+        maybe("Encoding2", t2, "Encoding")
+        maybe("ToUnicode2", t2, "ToUnicode")
         extra[14] = t2
         fonts["F2"] = Ref(14)
         b2 = block(b"F2", sec["shows"])
@@ -1997,6 +2024,7 @@ def doc_compare(cfg):
     if cfg.get("second"):
         ident = ident and cfg["second"]["enc"] in IDENT1 + IDENT2
     tags = {"group": "doc", "enc": cfg["enc"], "two_fonts": bool(cfg.get("second")), "identity_cmap": ident,
+            "indirect": list(cfg.get("indirect") or []),
             "tu_stream": bool(cfg.get("tu") and "sections" in cfg["tu"]), "vertical": cfg["enc"].endswith("V"),
             "odd": ident and any(isinstance(it, str) and (len(it) // 2) % 2 == 1 for items in cfg["shows"] for it in items)
             and cfg["enc"] in IDENT2}
@@ -2027,12 +2055,14 @@ def shrink_doc(cfg):
         r = doc_compare(c)
         return r is not None and r != "outside"
     cur = json.loads(json.dumps(cfg))
-    for key, val in (("second", None), ("w", None), ("w2", None), ("dw", None), ("dw2", None), ("ttf", None), ("tu", None),
+    for key, val in (("second", None), ("indirect", []), ("w", None), ("w2", None), ("dw", None), ("dw2", None), ("ttf", None), ("tu", None),
                      ("tm", [1, 0, 0, 1, 0, 0]), ("fs", 10), ("enc_kind", "name")):
         if cur.get(key) != val:
             cand = dict(cur, **{key: val})
             if fails(cand):
                 cur = cand
+    if len(cur.get("indirect") or []) > 1:
+        cur["indirect"] = C.ddmin(list(cur["indirect"]), lambda sub: fails(dict(cur, indirect=sub)), 30)
     shows = C.ddmin(cur["shows"], lambda sub: fails(dict(cur, shows=sub)), 30)
     cur["shows"] = shows
     for i in range(len(cur["shows"])):
@@ -2055,6 +2085,8 @@ def check_doc(ctx: C.Ctx, b: Batch, cfg, do_shrink=True, record=True) -> None:
              sample={"group": "doc", "enc": cfg["enc"], "tu": tu, "shows": cfg["shows"][:2]},
              branch=f"doc:{kind}:{'v' if vertical else 'h'}:{tu}" + (":two-fonts" if cfg.get("second") else "")
              + (":outside" if r == "outside" else ""))
+    for k in cfg.get("indirect") or []:
+        ctx.branch("doc:indirect:" + k)
     if r is None or r == "outside":
         return
     small = shrink_doc(cfg) if do_shrink else cfg
